@@ -30,6 +30,13 @@ func (v *VerifBatchWriter) WriteBatch(bufs [][]byte, addrs []netip.AddrPort) (in
 
 func (v *VerifBatchWriter) GSOSupported() bool { return v.w.gsoSupported }
 
+// UseKernel points the writer at a real descriptor and restores the production sendFn (w.sendmmsg, the
+// retry loop around the raw syscall).
+func (v *VerifBatchWriter) UseKernel(fd int) {
+	v.w.fd = fd
+	v.w.sendFn = v.w.sendmmsg
+}
+
 // Entry returns what mmsghdr slot e points at: its iovecs, its sockaddr bytes and its control bytes.
 func (v *VerifBatchWriter) Entry(e int) (bases []*byte, lens []int, name []byte, control []byte) {
 	hdr := &v.w.msgs[e].Hdr
